@@ -35,8 +35,8 @@ def run(tier):
     scens = P.rebase_scenarios(tier)
     scfile = P.write_scens(wd, scens, "rebase_m")
     q = tier == "quick"
-    long_env = {"VERIF_LONG": 1, "VERIF_LONG_A": 72, "VERIF_LONG_B": 80, "VERIF_SCRIPTED": 5, "VERIF_SCRIPT_KINDS": "cross-kind-eviction,storage-proof,mixed-inputs,cross-kind-eviction,storage-proof"} if q else \
-               {"VERIF_LONG": 6, "VERIF_LONG_A": 150, "VERIF_LONG_B": 230, "VERIF_SCRIPTED": 36}
+    long_env = {"VERIF_LONG": 1, "VERIF_LONG_A": 72, "VERIF_LONG_B": 80, "VERIF_SCRIPTED": 6, "VERIF_SCRIPT_KINDS": "cross-kind-eviction,storage-proof,mixed-inputs,boundary,mixed-inputs,storage-proof"} if q else \
+               {"VERIF_LONG": 6, "VERIF_LONG_A": 150, "VERIF_LONG_B": 230, "VERIF_SCRIPTED": 40, "VERIF_SCRIPT_KINDS": "cross-kind-eviction,storage-proof,mixed-inputs,boundary,mixed-inputs"}
     def mr(mc_cfg, what, name, rng_, maxlen):
         # the graph TLC checks in Leg M is the stimulus graph of Leg R: one run, invariants + edges
         m = P.leg_m(wd, mc_cfg, scfile, what, workers=4, emit=True, tag=name + "_mc")
